@@ -289,3 +289,60 @@ func (eng *Engine) inventoryPredefined() []*Obligation {
 	}
 	return []*Obligation{o}
 }
+
+// inventoryGlobalWrites (C16): package-level variables live as long as the process. A store to one of them (or into
+// an array / struct kept in one) outside package initialisation is state that survives from one execution to the next.
+func (eng *Engine) inventoryGlobalWrites() []*Obligation {
+	var bad []string
+	var keys []string
+	for k := range eng.funcs {
+		keys = append(keys, k)
+	}
+	sort.Strings(keys)
+	rootGlobal := func(v ssa.Value) *ssa.Global {
+		for i := 0; i < 8; i++ {
+			switch x := v.(type) {
+			case *ssa.Global:
+				return x
+			case *ssa.FieldAddr:
+				v = x.X
+			case *ssa.IndexAddr:
+				v = x.X
+			default:
+				return nil
+			}
+		}
+		return nil
+	}
+	for _, k := range keys {
+		f := eng.funcs[k]
+		root := f
+		for root.Parent() != nil {
+			root = root.Parent()
+		}
+		if strings.HasPrefix(root.Name(), "init") {
+			continue
+		}
+		for _, b := range f.Blocks {
+			for _, ins := range b.Instrs {
+				st, ok := ins.(*ssa.Store)
+				if !ok {
+					continue
+				}
+				if g := rootGlobal(st.Addr); g != nil && g.Pkg != nil && strings.HasPrefix(g.Pkg.Pkg.Path(), eng.modPath) {
+					what := k + " " + g.Name()
+					if eng.specs.Nondet["globalwrite "+what] {
+						continue
+					}
+					bad = append(bad, fmt.Sprintf("%s writes package-level variable %s.%s at %s", k, g.Pkg.Pkg.Name(), g.Name(), eng.fset.Position(st.Pos())))
+				}
+			}
+		}
+	}
+	o := &Obligation{Name: "inventory/global-writes:no package-level variable is written outside package initialisation#1", Kind: "inventory", Fn: "inventory/global-writes", Evaluated: true, Solver: "eval", Result: "unsat"}
+	if len(bad) > 0 {
+		o.Result = "sat"
+		o.Model = strings.Join(bad, "\n")
+	}
+	return []*Obligation{o}
+}
